@@ -41,22 +41,29 @@ def thread_strategy(roles):
 
 
 def race_strategy():
-    """two committers, one of them held up at the n-th operation on a lock of the storage (somewhere between its first
-    load and the end of its commit) while the other runs a whole transaction - the commit protocol's own critical
-    sections, one yield point at a time"""
+    """two threads, the first a committer that is held up at the n-th operation on a lock of the storage or of the MVCC
+    adapter (somewhere between its first load and the end of its commit) while the other - a second committer, or a
+    reader that reads the same object in consecutive transactions - runs: to its end, or for m yield points before the
+    committer is let go - the commit protocol's own critical sections, one yield point at a time"""
     from vlib import threadprog
     locks_of = {'fs': ['FileStorage'], 'mapping': ['MappingStorage'], 'demo': ['DemoStorage', 'MappingStorage']}
     one = st.sampled_from(threadprog.PLAIN).map(lambda n_: ['committer', [['write', n_], ['commit'], ['read', n_]]])
+    two = st.tuples(st.sampled_from(threadprog.PLAIN), st.sampled_from(threadprog.PLAIN)).map(
+        lambda t: ['committer', [['write', t[0]], ['write', t[1]], ['commit']]])
+    again = st.integers(3, 5).map(lambda k_: ['reader', [['begin'], ['readall']] * k_])
 
     def mk(kind):
-        first = st.tuples(st.sampled_from(['release', 'release', 'acquire']), st.sampled_from(locks_of[kind]),
-                          st.integers(1, 16)).map(lambda t: ['%s:%s' % (t[0], t[1]), t[2], 0])
+        first = st.tuples(st.sampled_from(['release', 'release', 'acquire']),
+                          st.sampled_from(locks_of[kind] * 3 + ['MVCCAdapter', 'MVCCAdapterInstance']),
+                          st.integers(1, 12)).map(lambda t: ['%s:%s' % (t[0], t[1]), t[2], 0])
+        sched_ = st.tuples(first, st.one_of(st.just(100000), st.integers(8, 50), st.integers(8, 50), st.integers(1, 160))).map(
+            lambda t: {'segments': [t[0], ['any', t[1], 0]]})
         return st.fixed_dictionaries({
             'mode': st.just('threads'), 'kind': st.just(kind),
-            'programs': st.tuples(one, one).map(list),
-            'schedule': first.map(lambda f: {'segments': [f, ['any', 100000, 0]]}),
+            'programs': st.tuples(st.one_of(one, two), st.one_of(one, again, again)).map(list),
+            'schedule': sched_,
             'lines': st.just(False), 'warm': st.booleans(), 'packer': st.just(None)})
-    return st.sampled_from(['fs', 'mapping', 'demo']).flatmap(mk)
+    return st.sampled_from(['fs', 'mapping', 'mapping', 'demo']).flatmap(mk)
 
 
 def line_funcs():
@@ -118,7 +125,7 @@ def strategy(tier, weights='mixed'):
         # one share of write-heavy programs (conflicting, retried and savepoint commits: what a failed commit leaves in
         # the connection's cache is part of what the next transaction reads)
         heavy = _seq_strategy(n, 'write-heavy')
-        return st.integers(0, 99).flatmap(lambda w: seq if w < 40 else heavy if w < 52 else race_strategy() if w < 58
+        return st.integers(0, 99).flatmap(lambda w: seq if w < 40 else heavy if w < 50 else race_strategy() if w < 63
                                           else thread_strategy(roles))
     return st.integers(0, 99).flatmap(lambda w: seq if w < 46 else race_strategy() if w < 54 else thread_strategy(roles))
 
